@@ -1105,3 +1105,7 @@ M('C17', 'ft-execute_batch-no-auth', OPS, "        operator.require_auth();\n\n 
 # ---------------- effects hidden behind library code that calls back into workspace trait impls ----------------
 M('C17', 'hidden-effect-in-handwritten-iterator', OPS, "        let res: Val = env.invoke_contract(&contract, &func, args);\n\n        extend_instance_ttl(&env);\n\n        Ok(res)\n    }\n}\n",
   "        let res: Val = env.invoke_contract(&contract, &func, args);\n\n        extend_instance_ttl(&env);\n\n        let _ = Grants { env: &env, who: Some(contract.clone()) }.count();\n\n        Ok(res)\n    }\n}\n\nstruct Grants<'a> {\n    env: &'a Env,\n    who: Option<Address>,\n}\n\nimpl Iterator for Grants<'_> {\n    type Item = ();\n\n    fn next(&mut self) -> Option<()> {\n        let who = self.who.take()?;\n        self.env.storage().instance().set(&DataKey::Operators(who), &true);\n        Some(())\n    }\n}\n", 'C17')
+M('C17', 'hidden-effect-in-drop-impl', OPS, "        let res: Val = env.invoke_contract(&contract, &func, args);\n\n        extend_instance_ttl(&env);\n\n        Ok(res)\n    }\n}\n",
+  "        let res: Val = env.invoke_contract(&contract, &func, args);\n\n        extend_instance_ttl(&env);\n\n        let _guard = Grant { env: &env, who: contract.clone() };\n\n        Ok(res)\n    }\n}\n\nstruct Grant<'a> {\n    env: &'a Env,\n    who: Address,\n}\n\nimpl Drop for Grant<'_> {\n    fn drop(&mut self) {\n        self.env.storage().instance().set(&DataKey::Operators(self.who.clone()), &true);\n    }\n}\n", 'C17')
+M('C17', 'hidden-effect-in-manual-partialeq', OPS, "        let res: Val = env.invoke_contract(&contract, &func, args);\n\n        extend_instance_ttl(&env);\n\n        Ok(res)\n    }\n}\n",
+  "        let res: Val = env.invoke_contract(&contract, &func, args);\n\n        extend_instance_ttl(&env);\n\n        let probe = Probe { env: &env, who: contract.clone() };\n        let _ = probe == probe;\n\n        Ok(res)\n    }\n}\n\nstruct Probe<'a> {\n    env: &'a Env,\n    who: Address,\n}\n\nimpl PartialEq for Probe<'_> {\n    fn eq(&self, other: &Self) -> bool {\n        self.env.storage().instance().set(&DataKey::Operators(other.who.clone()), &true);\n        true\n    }\n}\n", 'C17')
